@@ -13,6 +13,16 @@
 //!    of window, ACKs around SND.UNA/SND.NXT, zero and shrinking windows, lengths 0..MSS, during
 //!    the handshake too) and segments for 4-tuples without a session (LISTEN / CLOSED paths).
 //!
+//! LENGTH CONSISTENCY (labels `len-cut-*`, `len-pad-*`): datagrams for the bound UDP ports whose frame
+//! was cut by n octets or padded by n octets, with the IPv4 total length and the UDP length field each
+//! either adjusted to the frame or left as sent (the 2 x 2 x {cut, pad} grid).  The reference judges
+//! the UDP length field against the UDP octets that count (what arrived, cut at the IPv4 total length
+//! when the frame is longer): a mismatch must be dropped at the UDP layer; a self-consistent datagram
+//! in a frame that disagrees with the total length may be dropped or delivered, but only as itself.
+//! TINY FRAGMENTS (labels `ip-frag-tiny`, `ip-frag-tiny-again`): header-only and 1..7-octet fragments,
+//! MF set or last, at offsets 0, 1, around multiples of 8 / 64, at the largest offsets the 65535
+//! guard lets through and beyond; duplicates and overlaps of the previous one.
+//!
 //! Every frame is classified at injection time by the reference in `c14s_wire.rs` (written from
 //! the RFCs) and by the victim's TCB as published through the `verif` hooks.  Oracle (native, this
 //! run has no Lean side): the worker process never dies; a frame that must be rejected, an
@@ -38,7 +48,7 @@ use wire::*;
 #[path = "c14s_exec.rs"]
 mod exec;
 
-pub const RULE: &str = "one case = one paused-clock simulation of 2-3 real machines with 1-2 established TCP connections (numbered byte streams both ways), UDP listeners and ~40 raw frames injected into the victim's tap between the legitimate segments; every frame is classified by an RFC-written reference + the victim's TCB at that instant; oracles: process alive, must-reject / unacceptable / no-session frames reach no application and leave all demux tables, the ARP table and every TCB unchanged, valid datagrams reach exactly their listener, streams are prefixes at all times, transfers complete and later data arrives; a case is non-trivial if at least 10 frames were injected and a legitimate transfer completed; distinct = hash of the op lines";
+pub const RULE: &str = "one case = one paused-clock simulation of 2-3 real machines with 1-2 established TCP connections (numbered byte streams both ways), UDP listeners and ~40 raw frames injected into the victim's tap between the legitimate segments; every frame is classified by an RFC-written reference + the victim's TCB at that instant; oracles: process alive, must-reject / unacceptable / no-session frames (incl. UDP length fields that disagree with the UDP octets that arrived in cut / padded frames, header-only and 1..7-octet fragments) reach no application and leave all demux tables, the ARP table and every TCB unchanged, valid datagrams reach exactly their listener, streams are prefixes at all times, transfers complete and later data arrives; a case is non-trivial if at least 10 frames were injected and a legitimate transfer completed; distinct = hash of the op lines";
 
 pub fn addr(i: usize) -> u32 {
     0x0a00_0001 + i as u32
@@ -192,6 +202,8 @@ struct Gen<'a> {
     cfg: Cfg,
     /// running counter so that the 64 flag combinations are all visited
     flag_ctr: u64,
+    /// the previous tiny fragment (header, data), for duplicates and overlaps of it
+    last_frag: Option<(IpF, Vec<u8>)>,
 }
 
 fn o<T: std::fmt::Display>(x: Option<T>) -> String {
@@ -353,7 +365,7 @@ impl<'a> Gen<'a> {
         let port = *self.r.pick(&[UDP_EXACT, UDP_EXACT, UDP_WILD]);
         let dgram = udp_pack(p, v, UDP_SRC + 1, port, None, &payload);
         let base = IpF::new(p, v, 17);
-        let k = self.r.below(if self.cfg.arp { 24 } else { 21 });
+        let k = self.r.below(if self.cfg.arp { 28 } else { 25 });
         match k {
             0 => {
                 let f = ip_pack(&base, &dgram);
@@ -470,12 +482,95 @@ impl<'a> Gen<'a> {
                 self.raw_line(t, "link-direct", tgt, pm, &b)
             }
             20 => self.raw_line(t, "link-unknown", "unknown", pm, &ip_pack(&base, &dgram)),
-            21 => {
+            21 | 22 => {
+                // LENGTH CONSISTENCY at the UDP layer: a datagram for a bound port whose frame was cut by
+                // n octets (21) or padded by n octets (22), the IPv4 total length adjusted to the frame or
+                // left as sent, the UDP length field adjusted or left as sent: the 2 x 2 x {cut, pad} grid
+                let cut = k == 21;
+                let plen = *self.r.pick(&[1usize, 2, 7, 8, 9, 64, 300]);
+                let payload: Vec<u8> = (0..plen).map(|i| 0xd0 ^ (i as u8)).collect();
+                let orig = udp_pack(p, v, UDP_SRC + 1, port, None, &payload);
+                let ip_adj = self.r.chance(1, 2);
+                let udp_adj = self.r.chance(1, 2);
+                let dgram: Vec<u8> = if cut {
+                    // inside the payload; with the UDP length left as sent also into the UDP header
+                    let into_header = plen + 1 + self.r.below(7) as usize;
+                    let n = (*self.r.pick(&[1usize, 1, 2, 3, plen / 2, plen - 1, plen, if udp_adj { plen } else { into_header }])).clamp(1, if udp_adj { plen } else { plen + 7 });
+                    if udp_adj {
+                        udp_pack(p, v, UDP_SRC + 1, port, None, &payload[..plen - n])
+                    } else {
+                        orig[..orig.len() - n].to_vec()
+                    }
+                } else {
+                    let n = *self.r.pick(&[1usize, 1, 2, 3, 7, 8, 18, 46usize.saturating_sub(28 + plen).max(1), 300]);
+                    let fill = if self.r.chance(3, 4) { 0u8 } else { 0xee };
+                    if udp_adj {
+                        let mut pp = payload.clone();
+                        pp.extend(std::iter::repeat(fill).take(n));
+                        udp_pack(p, v, UDP_SRC + 1, port, None, &pp)
+                    } else {
+                        let mut d = orig.clone();
+                        d.extend(std::iter::repeat(fill).take(n));
+                        d
+                    }
+                };
+                let mut f = base.clone();
+                if !ip_adj {
+                    f.tl = Some(20 + orig.len() as u16);
+                }
+                let label = format!("len-{}-ip{}-udp{}", if cut { "cut" } else { "pad" }, if ip_adj { "adj" } else { "kept" }, if udp_adj { "adj" } else { "kept" });
+                self.raw_line(t, &label, "ipv4", pm, &ip_pack(&f, &dgram))
+            }
+            23 | 24 => {
+                // header-only and 1..7-octet fragments (MF set / last fragment; offsets 0, 1, around the
+                // byte boundaries of a block bit vector, the largest the 65535 guard lets through, beyond
+                // it); 24: a duplicate or an overlap of the previous one (same identification)
+                let prev = if k == 24 { self.last_frag.clone() } else { None };
+                let (f, data, label) = match prev {
+                    Some((mut f, mut data)) => {
+                        match self.r.below(4) {
+                            0 => {}
+                            1 => {
+                                let n = self.r.below(8) as usize;
+                                data = dgram[..n.min(dgram.len())].to_vec();
+                            }
+                            2 => f.ffo ^= 0x2000,
+                            _ => f.ffo = (f.ffo & 0xe000) | ((f.ffo & 0x1fff).wrapping_add(*self.r.pick(&[1u16, 0x1fff, 8])) & 0x1fff),
+                        }
+                        if f.ffo & 0x3fff == 0 {
+                            f.ffo |= 0x2000;
+                        }
+                        f.tl = Some(20 + data.len() as u16);
+                        (f, data, "ip-frag-tiny-again")
+                    }
+                    None => {
+                        let rn = self.r.below(8) as usize;
+                        let n = *self.r.pick(&[0usize, 0, 0, 1, 2, 7, rn]);
+                        let mf = self.r.chance(1, 2);
+                        let ro = self.r.below(8192) as u16;
+                        let mut off = *self.r.pick(&[0u16, 0, 1, 2, 7, 8, 9, 16, 63, 64, 65, 512, 8184, 8188, 8189, 8190, 8191, ro]);
+                        if !mf && off == 0 {
+                            off = *self.r.pick(&[1u16, 8, 64]);
+                        }
+                        let mut f = base.clone();
+                        f.id = self.r.below(3) as u16;
+                        f.ffo = ((mf as u16) << 13) | off;
+                        f.tl = Some(20 + n as u16);
+                        (f, dgram[..n.min(dgram.len())].to_vec(), "ip-frag-tiny")
+                    }
+                };
+                self.last_frag = Some((f.clone(), data.clone()));
+                // the frame is the fragment; one time in four the rest of the datagram follows behind what
+                // the total length says (the IPv4 decoder is not told the frame length)
+                let body = if self.r.chance(1, 4) { dgram.clone() } else { data };
+                self.raw_line(t, label, "ipv4", pm, &ip_pack(&f, &body))
+            }
+            25 => {
                 let a = arp_pack(1, 0x0800, 6, 4, 1, 1, p, 0, v);
                 let n = self.r.below(28) as usize;
                 self.raw_line(t, "arp-trunc", "arp", pm, &a[..n])
             }
-            22 => {
+            26 => {
                 let a = arp_pack(1, 0x0800, 6, 4, *self.r.pick(&[0u16, 3, 4, 0x0100, 0xffff]), 55, p, 0, v);
                 self.raw_line(t, "arp-oper-bad", "arp", pm, &a)
             }
@@ -530,7 +625,7 @@ pub fn gen_case(mix: &str, rng: &mut Rng) -> Vec<String> {
         push(5 + k as u64, format!("open {} {}", 5 + k as u64, k), &mut timed);
     }
     let taint = mix == "c17" && rng.chance(2, 5);
-    let mut g = Gen { r: rng, cfg: cfg.clone(), flag_ctr: 0 };
+    let mut g = Gen { r: rng, cfg: cfg.clone(), flag_ctr: 0, last_frag: None };
     g.flag_ctr = g.r.below(64);
     // injections during the handshake (victim in SYN-SENT / SYN-RECEIVED)
     if mix == "c17" && cfg.lat >= 2 && !cfg.arp && g.r.chance(1, 2) {
